@@ -180,9 +180,12 @@ theorem repeated_key_counterexample :
   ⟨W.newTree_ty, Cex.dup_mem, Cex.dup_not_refLocal, Cex.dup_not_wf⟩
 
 /-
-OPEN — carried by K/O only: nothing of C02's statement except what `Props/C01.lean` lists (absence of panics of the
-model on spec-valid documents; model = code (K); the trusted reading of TypeScript; the hypotheses `Hyp` about the REAL
-schema declaration file, which the O stream tests on the real emitted files).
+OPEN — carried by K/O only: nothing of C02's statement except what `Props/C01.lean` lists (model = code (K); the trusted
+reading of TypeScript).  The hypotheses `Hyp` are PROVED for the schema declaration file the model of the schema printer
+emits and the absence of panics with the model's own fuels is proved (`Props/C01Closed.lean`); `Props/C02Closed.lean` has
+the end-to-end forms (`C02_end_to_end`, `C02_pipeline_end_to_end`) and what is left after them: the fuel of the
+executable specification is covered from the expanded size upwards, not at the driver's `docSize D + 8`
+(`fuelOk_not_tight_witness`).  The O stream keeps testing the REAL emitted files.
 -/
 
 end NitroVerif.Props.C02
